@@ -755,6 +755,8 @@ const LABEL_PARTS: &[&str] = &[
     // mnemonics of other instruction sets and of possible extensions: plain labels here
     "nop", "NOP", "Nop", "mov", "xor", "or", "mul", "div", "cmp", "inc", "dec", "neg", "clr", "load", "store", "print", "db", "dw",
     "dup", "proc", "endp", "_start", "_main", "exit", "syscall", "int", "iret", "jz", "jnz", "bra", "beq",
+    // labels to the assembler, numbers or registers to a grammar that knows b/o prefixes and r0-r7
+    "b1", "b10", "B0", "o7", "o17", "b_1", "o_7", "b2", "r10", "R07x", "r8", "R77", "100", "7", "007", "12294",
 ];
 
 pub fn gen_label(rng: &mut Rng, taken: &[String]) -> String {
